@@ -108,7 +108,7 @@ def mechanism(v, dg):
       return c01_diag.K_NOTRUN_CALLEE
     if dg.get("param_rebound") and vw.get("invisible"):
       return c01_diag.K_PARAM_REBOUND
-    if dg.get("inplace") and vw.get("invisible"):
+    if dg.get("inplace") and (vw.get("invisible") or vw.get("found") is False):
       return c01_diag.K_INPLACE
     if dg.get("branch_attr") and vw.get("found") is False:
       return c01_diag.K_BRANCH_ATTR
@@ -191,6 +191,14 @@ def judge(src, trace, res, diag=None):
             st = c01_diag.site_signature(res.ctx, defs, trace, gname)
             if st:
               dg["site"] = st
+          tree_a = pyast.parse(trace["src"])
+          ex_a = set(trace.get("executed_lines") or ())
+          sites_a = {(q.split('.')[-1], ln) for q, ln, _ in trace["returns"]}
+          for callee in c01_diag.attr_store_callees(tree_a, attr, ex_a):
+            nrc = c01_diag.notrun_callee_signature(tree_a, callee, ex_a, sites_a)
+            if nrc:
+              dg["notrun_callee"] = nrc
+              break
         except Exception as e:  # pylint: disable=broad-except
           dg["error"] = f"{type(e).__name__}: {e}"
         diag[f"{cname}.{attr}"] = dg
